@@ -167,6 +167,21 @@ def check(run, M, tier):
     run.rule("L3-PDHG", "PDHG receives the primal prox carrying lamda and z on x, the dual prox of the data term (stacked with Conj(proxg) on G x when G is given), "
                         "Vstack([A, G]) and its adjoint, gamma_primal = lamda exactly when the primal prox is strongly convex, default steps from MaxEig(A^H S A) / MaxEig(A T A^H)")
     run.rule("L2-ADMM", "ADMM x-update solves (A^H A + lamda I + rho G^H G) x = A^H y + rho G^H (v - u) + lamda z, v-update is prox_{1/rho}(G x + u), constraint operators (G, -I, 0)")
+    run.rule("L5", "the functions LinearLeastSquares hands to its algorithms (gradf, minL_x, ...) never update in place what an operator returned, nor their own argument: "
+                   "A.N / A.H may return the iterate itself (Identity normal operator of FFT, Reshape, ...)")
+    from ..common import check_operator_results_not_updated
+    from ..effects import Effects
+    _eff = Effects(M)
+    closures = [f for q, f in sorted(M.funcs.items()) if f.parent is not None and q.startswith(LLS + ".")]
+    run.floor("L5", 3, len(closures), "closures defined by LinearLeastSquares set-up methods")
+    check_operator_results_not_updated(run, _eff, "L5", closures, "the solver's iterate x (the gradient / sub-problem is then evaluated at a corrupted point)")
+    for f_ in closures:
+        sm_ = _eff.of(f_.qual)
+        for p_ in sorted(sm_.mut):
+            for node_, why_ in sm_.detail.get(("P", p_), [])[:1]:
+                if ("O",) and any(node_ is n2 for n2, _ in sm_.opaque_mut):
+                    continue
+                run.bad("L5", f_.qual, f_.loc(node_), "%s modifies its argument `%s` in place (%s): the algorithm's iterate is overwritten" % (f_.qual, p_, why_), stmt=node_)
     alg = LinAlg(M)
     cls = M.cls(LLS)
     methods = {}
